@@ -350,6 +350,12 @@ func (t *targets) tunnel(host, kind, val string) (client.Tunnel, bool) {
 		if two {
 			tn.ProxyHeaderHost = "two.test"
 		}
+	case "http:headerHostLegacy": // no header mode: the optional Host override of the legacy behaviour
+		tn.Target = t.l1.URL
+		tn.ProxyHeaderHost = "one.test"
+		if two {
+			tn.ProxyHeaderHost = "two.test"
+		}
 	case "http:headerMode":
 		tn.Target = t.l1.URL
 		tn.ProxyHeaderMode = "target"
@@ -393,7 +399,7 @@ func (t *targets) classify(host, kind string, o connObs) string {
 		switch kind {
 		case "http:listener", "tcp":
 			return o.Code == 200 && ((!two && o.Reached == "L1") || (two && o.Reached == "L2"))
-		case "http:headerHost":
+		case "http:headerHost", "http:headerHostLegacy":
 			return o.Code == 200 && o.Reached == "L1" && ((!two && o.Host == "one.test") || (two && o.Host == "two.test"))
 		case "http:headerMode":
 			return o.Code == 200 && o.Reached == "L1" && ((!two && o.Host == hostOf(t.l1)) || (two && o.Host == host))
